@@ -83,6 +83,8 @@ pub struct Run {
     pub prefix_ref: bool,
     /// keep the evaluation history of this run: the next run is checked to be a prefix of it
     pub keep_hist: bool,
+    /// with prefix_ref: the run must also be as long as the reference (an identical continuation)
+    pub same_length: bool,
     pub raw: Vec<Raw>,
     pub panicked: Option<String>,
     pub end_vec: Vec<f64>,
@@ -126,6 +128,7 @@ pub fn run_scripted(desc: &str, req: &Req, state: Scripted) -> Run {
         check_range: true,
         prefix_ref: false,
         keep_hist: false,
+        same_length: false,
         raw,
         panicked: res.err().map(panic_msg),
         end_vec: keep.vector(),
@@ -177,6 +180,7 @@ where
             check_range,
             prefix_ref: false,
             keep_hist: false,
+            same_length: false,
             raw,
             panicked: res.err().map(panic_msg),
             end_vec,
@@ -347,6 +351,7 @@ fn cfg_json(run: &Run) -> Value {
         "checkRange": run.check_range,
         "prefixRef": run.prefix_ref,
         "keepHist": run.keep_hist,
+        "sameLength": run.same_length,
     })
 }
 
